@@ -81,7 +81,7 @@ impl DerivesRegistry {
         let DerivesRegistry {
             default_derives,
             mut specific_type_derives,
-            mut recursive_type_derives,
+            recursive_type_derives,
         } = self;
 
         if recursive_type_derives.is_empty() {
@@ -116,7 +116,9 @@ impl DerivesRegistry {
                 // this is only the case for types with empty path (i.e. builtin types).
                 continue;
             };
-            let Some(recursive_derives) = recursive_type_derives.remove(path) else {
+            // Note: do not remove the entry; every type with this path (e.g. each instantiation of a
+            // generic type) is a root, otherwise the result depends on which one comes first in the registry.
+            let Some(recursive_derives) = recursive_type_derives.get(path) else {
                 continue;
             };
             // The collected_type_ids contain the id of the type itself and all ids of its fields:
